@@ -21,7 +21,7 @@ RULE = ("Names over the HTTP token alphabet; values: every code point 0-255 alon
         "order with random OWS; expires in {0,1,59,3600,400 days,-3600}, max_age in {-1,0,1,10^9}; process time zones UTC, Asia/Shanghai, "
         "America/New_York, Europe/Berlin, Australia/Lord_Howe, Pacific/Kiritimati, Etc/GMT+12 (tzset in-process). Non-trivial = value that is not a "
         "bare token, or an expiry attribute under a non-UTC zone; distinct = (name, value, position, zone).")
-RULE += ' Also: percent-shaped values, set_cookie followed by delete_cookie on the same response (the last line for the name decides). The response carrying the cookies also answers from behind @middleware and @request_response; the cookie mapping is also read as a whole (items, dict(), values, ==, [name] for every name).'
+RULE += ' Also: percent-shaped values, set_cookie followed by delete_cookie on the same response (the last line for the name decides). The response carrying the cookies also answers from behind @middleware and @request_response; the cookie mapping is also read as a whole (items, dict(), values, ==, [name] for every name). Cookies read from a copy of the environ / scope that a layer in front has given another Cookie header after reading the original; a response object sent once, its queued cookies then assigned their values directly, and sent again.'
 ASSUMPTIONS = [
     "the client echoes the name=value pair exactly as it appeared before the first ';' of the Set-Cookie line",
     "Expires is judged by containment in [floor(t0+s), floor(t1+s)] with t0/t1 read around the call (never a deadline)",
@@ -80,12 +80,22 @@ def emit(iface, build, headers=(), via=None):
     return lines, r.exc, r.headers
 
 
-def read_back(iface, cookie_header):
+def read_back(iface, cookie_header, derived=False):
+    """derived: a layer in front (a middleware) has looked at the cookies of the request as it arrived, then passes on a COPY of the
+    environ / scope with another Cookie header (decrypted, filtered): the request object built on the copy reads the copy's header"""
     from baize import asgi, wsgi
-    req = drivers.Req(headers=[("Cookie", cookie_header)])
+    req = drivers.Req(headers=[("Cookie", "decoy=1; sid=as-it-arrived" if derived else cookie_header)])
     if iface == "wsgi":
-        return wsgi.Request(drivers.to_environ(req)).cookies
-    return asgi.Request(drivers.to_scope(req)).cookies
+        env = drivers.to_environ(req)
+        if derived:
+            wsgi.Request(env).cookies
+            env = dict(env, HTTP_COOKIE=cookie_header)
+        return wsgi.Request(env).cookies
+    scope = drivers.to_scope(req)
+    if derived:
+        asgi.Request(scope).cookies
+        scope = dict(scope, headers=[(k, v) for k, v in scope["headers"] if k != b"cookie"] + [(b"cookie", cookie_header.encode("latin-1"))])
+    return asgi.Request(scope).cookies
 
 
 def roundtrip(ctx, rng, cookies, zone=None):
@@ -97,6 +107,10 @@ def roundtrip(ctx, rng, cookies, zone=None):
     case["carrier"] = carrier
     via = (None, None, "middleware", "view")[len(repr(cookies)) % 4] if len(cookies) > 1 or len(repr(cookies)) % 8 < 4 else None
     case["via"] = via
+    resend = carrier in ("text", "json", "empty") and via is None and len(repr(cookies)) % 5 == 0
+    case["sent_once_before_with_other_values"] = resend
+    derived = len(repr(cookies)) % 3 == 0
+    case["read_from_a_derived_copy_of_the_request"] = derived
     fpath = os.path.join(ctx.tmpdir("c16carrier"), "carrier.txt")
     if not os.path.exists(fpath):
         with open(fpath, "wb") as f:
@@ -105,6 +119,18 @@ def roundtrip(ctx, rng, cookies, zone=None):
     def build(ns):
         r = {"text": lambda: ns.PlainTextResponse("x"), "empty": lambda: ns.Response(204), "json": lambda: ns.JSONResponse({"a": 1}),
              "redirect": lambda: ns.RedirectResponse("/next"), "file": lambda: ns.FileResponse(fpath), "file-range": lambda: ns.FileResponse(fpath)}[carrier]()
+        if resend:
+            # the response object has been sent once already with other values; the queued cookies (response.cookies is public) are then
+            # given their values directly and the object is sent again
+            for n, v in cookies:
+                r.set_cookie(n, "first-send")
+            if ns.__name__.endswith("wsgi"):
+                drivers.run_wsgi(r, drivers.to_environ(drivers.Req()))
+            else:
+                drivers.run_asgi(r, drivers.to_scope(drivers.Req()))
+            for c, (n, v) in zip(r.cookies, cookies):
+                c.value = v
+            return r
         for n, v in cookies:
             r.set_cookie(n, v)
         return r
@@ -130,7 +156,7 @@ def roundtrip(ctx, rng, cookies, zone=None):
             header = header + rng.choice([";", "; "])
         for riface in ("wsgi", "asgi"):
             try:
-                got = read_back(riface, header)
+                got = read_back(riface, header, derived)
             except Exception as e:
                 ctx.violation(f"request.cookies|exception|{type(e).__name__}", dict(case, iface=riface, header=header), repr(e))
                 continue
